@@ -110,3 +110,18 @@ def find_child(elem, tag):
 
 def count_unknown(cats):
     return len([c for c in cats if c is UnknownTagWarning])
+
+
+# the body parser instantiated inside OFXTree.parse: stand-in model of the C TreeBuilder base under symbolic execution
+from sx import rt as _rt
+from sx.models.etree import make_treebuilder as _mktb
+from ofxtools import Parser as _Parser
+
+
+def _tb_hook(f, args, kw):
+    if f is _Parser.TreeBuilder:
+        return (True, _mktb(f, True))
+    return None
+
+
+_rt.CALL_HOOKS.append(_tb_hook)
